@@ -78,6 +78,39 @@ type State struct {
 type feas struct {
 	mask uint64
 	n    int
+	// the exits of the callee as analysed on the path of this state (the same call site is analysed once per
+	// partition / fork, each time with its own exits); nil: those last stored at the origin
+	exits []*Exit
+	sum   *Summary
+}
+
+// sumOf: the summary of the callee analysed in context at o as the path of st saw it
+func sumOf(o *Origin, st *State) *Summary {
+	if f, ok := st.Feas[o]; ok && f.exits != nil && f.sum != nil {
+		return f.sum
+	}
+	return o.Sum
+}
+
+func sameExits(a, b []*Exit) bool {
+	return len(a) == len(b) && (len(a) == 0 || a[0] == b[0])
+}
+
+// feasOf: the exits of the callee analysed in context at o as the path of st saw them, and which of them are still
+// feasible
+func feasOf(o *Origin, st *State) (feas, []*Exit) {
+	exits := o.Exits
+	f, ok := st.Feas[o]
+	if ok && f.exits != nil {
+		exits = f.exits
+	}
+	if !ok || f.n != len(exits) {
+		f = feas{mask: ^uint64(0) >> (64 - uint(len(exits))), n: len(exits), exits: f.exits, sum: f.sum}
+		if len(exits) == 0 || len(exits) > 64 {
+			f.mask = 0
+		}
+	}
+	return f, exits
 }
 
 func newState() *State {
@@ -190,11 +223,11 @@ func (s *State) join(o *State) bool {
 	}
 	for k, v := range s.Feas {
 		ov, ok := o.Feas[k]
-		if !ok || ov.n != v.n {
+		if !ok || ov.n != v.n || !sameExits(v.exits, ov.exits) {
 			delete(s.Feas, k)
 			ch = true
 		} else if v.mask|ov.mask != v.mask {
-			s.Feas[k] = feas{v.mask | ov.mask, v.n}
+			s.Feas[k] = feas{v.mask | ov.mask, v.n, v.exits, v.sum}
 			ch = true
 		}
 	}
@@ -249,14 +282,14 @@ const (
 
 // Exit is one return of the analysed function.
 type Exit struct {
-	Stmt      *ast.ReturnStmt // nil for falling off the end
-	Pos       token.Pos
-	St        *State
-	Results   []ast.Expr
-	Class     string
-	BoolRes   int8
+	Stmt    *ast.ReturnStmt // nil for falling off the end
+	Pos     token.Pos
+	St      *State
+	Results []ast.Expr
+	Class   string
+	BoolRes int8
 	// PreClass: with Spec.DeferAtExit, the class of the exit before the deferred literals ran ("" otherwise)
-	PreClass string    // value of the function's only bool result at this exit (isTrue/isFalse, 0 unknown)
+	PreClass  string  // value of the function's only bool result at this exit (isTrue/isFalse, 0 unknown)
 	Via       *Origin // non-nil: an exit of a helper the function returns through (`return helper(..)`)
 	ErrOrigin *Origin // the call whose error is returned directly (return f() / return err with err := f())
 	OkImplies map[Tag]bool
@@ -398,12 +431,12 @@ type Spec struct {
 	nextInline int
 	// fieldObjs: stand-in objects for `x.f` with x a local variable or parameter of struct (pointer) type: facts about
 	// the field are kept under them like facts about a variable (State.Nil / Bool / Eq / Def)
-	fieldObjs  map[fieldKey]*types.Var
-	paramRoot  map[types.Object]types.Object // parameter of a callee being analysed in context -> the caller's variable it stands for
-	nextFn     *core.FuncInfo                // function the next run analyses (CallPoint.Fn)
-	litOwner   *core.FuncInfo                // declared function enclosing the literal the next runLit analyses
-	inlining   map[*types.Func]bool
-	ctxErr     map[string]bool
+	fieldObjs map[fieldKey]*types.Var
+	paramRoot map[types.Object]types.Object // parameter of a callee being analysed in context -> the caller's variable it stands for
+	nextFn    *core.FuncInfo                // function the next run analyses (CallPoint.Fn)
+	litOwner  *core.FuncInfo                // declared function enclosing the literal the next runLit analyses
+	inlining  map[*types.Func]bool
+	ctxErr    map[string]bool
 
 	cache map[sumKey]*Summary
 	busy  map[*types.Func]bool
@@ -505,12 +538,9 @@ func (r *runner) boolOf(e ast.Expr, st *State) int8 {
 	}
 	if c, ok := ast.Unparen(e).(*ast.CallExpr); ok {
 		if or := r.origins[c]; or != nil && or.Inlined && len(or.Exits) > 0 && len(or.Exits) <= 64 && or.Sum != nil && or.Sum.BoolIdx == 0 {
-			f, has := st.Feas[or]
-			if !has || f.n != len(or.Exits) {
-				f = feas{mask: ^uint64(0) >> (64 - uint(len(or.Exits))), n: len(or.Exits)}
-			}
+			f, exits := feasOf(or, st)
 			var v int8
-			for i, ex := range or.Exits {
+			for i, ex := range exits {
 				if f.mask&(1<<uint(i)) == 0 {
 					continue
 				}
@@ -743,6 +773,7 @@ type runner struct {
 	body       *ast.BlockStmt
 	// forking at calls analysed in context (Spec.Fork)
 	deferLits  map[Tag]*ast.FuncLit
+	deferCalls map[Tag]*Origin // `defer f(..)()`: the call whose result is the deferred function
 	deferOrder []Tag
 	inDefers   bool
 	probing    bool
@@ -1016,13 +1047,37 @@ func (r *runner) block(b *cfg.Block, st *State) [][]*State {
 	}
 	outs := make([][]*State, max(len(b.Succs), 1))
 	for _, f := range r.nodesFrom(b, 0, n, st) {
-		for i, o := range r.branch(b, cond, f) {
-			if o != nil {
-				outs[i] = append(outs[i], o)
-			}
-		}
+		r.branchFork(b, cond, f, outs)
 	}
 	return outs
+}
+
+// branchFork: branch, with the analysis forked first when the condition itself holds a call analysed in context
+// whose exits differ on a partition tag (`if c.install(ctx) { defer .. }`)
+func (r *runner) branchFork(b *cfg.Block, cond ast.Expr, st *State, outs [][]*State) {
+	if cond != nil && r.sp.Fork && len(r.sp.Split) > 0 && r.inline > 0 && !r.probing && r.forkDepth < 4 && hasCall(cond) {
+		savedRec, savedVisit := r.record, r.sp.Visit
+		r.record, r.sp.Visit, r.probing, r.forkReq = false, nil, true, nil
+		r.evalExpr(b, cond, st.copy())
+		r.record, r.sp.Visit, r.probing = savedRec, savedVisit, false
+		fr := r.forkReq
+		r.forkReq = nil
+		if fr != nil {
+			for _, g := range fr.groups {
+				r.force[fr.call] = g
+				r.forkDepth++
+				r.branchFork(b, cond, st.copy(), outs)
+				r.forkDepth--
+				delete(r.force, fr.call)
+			}
+			return
+		}
+	}
+	for i, o := range r.branch(b, cond, st) {
+		if o != nil {
+			outs[i] = append(outs[i], o)
+		}
+	}
 }
 
 // nodesFrom applies the nodes i..n-1 of b to st and returns the resulting state(s).
@@ -1106,10 +1161,24 @@ func (r *runner) branch(b *cfg.Block, cond ast.Expr, st *State) []*State {
 			// a loop over a local collection: its body has run (the collection is not empty) / the loop is behind us
 			if rs, ok := b.Stmt.(*ast.RangeStmt); ok {
 				if o := r.rangedLocal(rs.X); o != nil {
-					st.Must[RangedTag(o)] = true
-					st.May[RangedTag(o)] = true
-					done.Must["past:"+RangedTag(o)] = true
-					done.May["past:"+RangedTag(o)] = true
+					t := RangedTag(o)
+					// what an earlier len test established about the collection decides which edge is possible
+					enter, leave := st, done
+					if st.Must["empty:"+t] {
+						enter = nil
+					}
+					if done.Must["nonempty:"+t] && !done.May[t] {
+						leave = nil // known non-empty, yet the body never ran
+					}
+					if enter != nil {
+						enter.Must[t] = true
+						enter.May[t] = true
+					}
+					if leave != nil {
+						leave.Must["past:"+t] = true
+						leave.May["past:"+t] = true
+					}
+					return []*State{enter, leave}
 				}
 			}
 		}
@@ -1190,19 +1259,19 @@ func (r *runner) originOK(st *State, o *Origin) {
 			r.addTag(st, "ok:"+t)
 		}
 	}
-	if o.Sum != nil {
-		for t := range o.Sum.MustOk {
+	if sum := sumOf(o, st); sum != nil {
+		for t := range sum.MustOk {
 			r.addTag(st, t)
 		}
-		if (o.Inlined || o.MayBefore != nil) && o.Sum.MayOk != nil {
+		if (o.Inlined || o.MayBefore != nil) && sum.MayOk != nil {
 			// what only a failing exit of the callee may have done has not happened
-			for t := range o.Sum.May {
-				if !o.Sum.MayOk[t] && !o.MayBefore[t] {
+			for t := range sum.May {
+				if !sum.MayOk[t] && !o.MayBefore[t] {
 					delete(st.May, t)
 				}
 			}
-			for t := range o.Sum.MayFail {
-				if !o.Sum.MayOk[t] && !st.Must[t] && !o.MayBefore[t] {
+			for t := range sum.MayFail {
+				if !sum.MayOk[t] && !st.Must[t] && !o.MayBefore[t] {
 					delete(st.May, t)
 				}
 			}
@@ -1220,17 +1289,17 @@ func (r *runner) originFail(st *State, o *Origin) {
 			r.addTag(st, "fail:"+t)
 		}
 	}
-	if o.Sum != nil {
-		for t := range o.Sum.MustFail {
+	if sum := sumOf(o, st); sum != nil {
+		for t := range sum.MustFail {
 			r.addTag(st, t)
 		}
-		if (o.Inlined || o.MayBefore != nil) && o.Sum.MayFail != nil {
-			for t := range o.Sum.May {
-				if !o.Sum.MayFail[t] && !o.MayBefore[t] {
+		if (o.Inlined || o.MayBefore != nil) && sum.MayFail != nil {
+			for t := range sum.May {
+				if !sum.MayFail[t] && !o.MayBefore[t] {
 					delete(st.May, t)
 				}
 			}
-			for t := range o.Sum.MayFail {
+			for t := range sum.MayFail {
 				st.May[t] = true
 			}
 		}
@@ -1251,6 +1320,12 @@ func (r *runner) refine(cond ast.Expr, branch bool, st *State) {
 		}
 		if !empty && st.Must["past:"+t] && !st.May[t] {
 			st.Must[deadTag] = true
+		}
+		// remembered for a loop over the collection that comes later
+		if empty {
+			st.Must["empty:"+t], st.May["empty:"+t] = true, true
+		} else {
+			st.Must["nonempty:"+t], st.May["nonempty:"+t] = true, true
 		}
 	}
 	if r.sp.CondTags != nil {
@@ -1417,11 +1492,11 @@ func (r *runner) narrow(o *Origin, st *State, keep func(*Exit) bool) {
 	if !o.Inlined || len(o.Exits) == 0 || len(o.Exits) > 64 {
 		return
 	}
-	f, ok := st.Feas[o]
-	if !ok || f.n != len(o.Exits) {
-		f = feas{mask: ^uint64(0) >> (64 - uint(len(o.Exits))), n: len(o.Exits)}
+	f, exits := feasOf(o, st)
+	if len(exits) == 0 || len(exits) > 64 {
+		return
 	}
-	for i, ex := range o.Exits {
+	for i, ex := range exits {
 		if f.mask&(1<<uint(i)) != 0 && !keep(ex) {
 			f.mask &^= 1 << uint(i)
 		}
@@ -1432,16 +1507,16 @@ func (r *runner) narrow(o *Origin, st *State, keep func(*Exit) bool) {
 		st.Must[deadTag] = true
 		return
 	}
-	for t := range r.feasMust(o, f, nil) {
+	for t := range r.feasMust(exits, f, nil) {
 		st.Must[t] = true
 		st.May[t] = true
 	}
 }
 
 // feasMust: the tags every feasible exit (that also satisfies also, if given) has established; nil if there is none
-func (r *runner) feasMust(o *Origin, f feas, also func(*Exit) bool) map[Tag]bool {
+func (r *runner) feasMust(exits []*Exit, f feas, also func(*Exit) bool) map[Tag]bool {
 	var inter map[Tag]bool
-	for i, ex := range o.Exits {
+	for i, ex := range exits {
 		if f.mask&(1<<uint(i)) == 0 || (also != nil && !also(ex)) {
 			continue
 		}
@@ -1466,7 +1541,8 @@ func (r *runner) feasMust(o *Origin, f feas, also func(*Exit) bool) map[Tag]bool
 // boolSum: the condition tests the bool result of a call whose body was analysed: what every exit returning
 // that value has established holds from here on.
 func (r *runner) boolSum(o *Origin, idx int, v bool, st *State) {
-	if o.Sum == nil || o.Sum.BoolIdx != idx {
+	sum := sumOf(o, st)
+	if sum == nil || sum.BoolIdx != idx {
 		return
 	}
 	want := isFalse
@@ -1474,9 +1550,9 @@ func (r *runner) boolSum(o *Origin, idx int, v bool, st *State) {
 		want = isTrue
 	}
 	r.narrow(o, st, func(ex *Exit) bool { return ex.BoolRes == 0 || ex.BoolRes == want })
-	m := o.Sum.MustFalse
+	m := sum.MustFalse
 	if v {
-		m = o.Sum.MustTrue
+		m = sum.MustTrue
 	}
 	for t := range m {
 		r.addTag(st, t)
@@ -1609,6 +1685,25 @@ func (r *runner) node(b *cfg.Block, n ast.Node, st *State) {
 func (r *runner) deferOrGo(b *cfg.Block, c *ast.CallExpr, st *State, prefix string) {
 	for _, a := range c.Args {
 		r.evalExpr(b, a, st)
+	}
+	// `defer setUp(..)()`: setUp runs now, what it hands back runs at exit
+	if inner, ok := ast.Unparen(c.Fun).(*ast.CallExpr); ok {
+		r.evalExpr(b, inner, st)
+		if prefix == "defer:" && r.sp.DeferAtExit && len(c.Args) == 0 && !r.inLoop[b] {
+			if or := r.origins[inner]; or != nil && or.Inlined && len(or.Exits) > 0 {
+				t := Tag("defercall:" + strconv.Itoa(int(inner.Pos())))
+				st.Must[t] = true
+				st.May[t] = true
+				if r.deferCalls == nil {
+					r.deferCalls = map[Tag]*Origin{}
+				}
+				if _, seen := r.deferCalls[t]; !seen {
+					r.deferOrder = append(r.deferOrder, t)
+				}
+				r.deferCalls[t] = or
+			}
+		}
+		return
 	}
 	if lit, ok := ast.Unparen(c.Fun).(*ast.FuncLit); ok && prefix == "defer:" && r.sp.DeferAtExit && len(c.Args) == 0 && !r.inLoop[b] {
 		t := deferLitTag(lit)
@@ -2024,6 +2119,11 @@ func (r *runner) call(b *cfg.Block, c *ast.CallExpr, st *State, valueUsed bool) 
 				}
 			}
 		}
+		// which exits of earlier calls are still possible stays known (a deferred function handed back by one of
+		// them is looked up at the exits, also at those the callee contributes as a tail call)
+		for k, v := range st.Feas {
+			seed.Feas[k] = v
+		}
 		// what is known about the fields of local structs travels with them (the stand-ins are keyed by the
 		// caller's variable, whatever the callee calls it)
 		for _, fo := range r.sp.fieldObjs {
@@ -2193,6 +2293,10 @@ func (r *runner) call(b *cfg.Block, c *ast.CallExpr, st *State, valueUsed bool) 
 			or.Sum = sub.Sum
 			or.Inlined = true
 			or.Exits = sub.Exits
+			delete(st.Feas, or)
+			if len(sub.Exits) <= 64 {
+				st.Feas[or] = feas{mask: ^uint64(0) >> (64 - uint(len(sub.Exits))), n: len(sub.Exits), exits: sub.Exits, sum: sub.Sum}
+			}
 			// what survives every exit of the callee (tags it killed on some path are gone)
 			for t := range st.Must {
 				if !sub.Sum.MustAll[t] {
@@ -2272,7 +2376,7 @@ func (r *runner) leaveThrough(st *State, o *Origin, g []int) {
 	for t := range may {
 		st.May[t] = true
 	}
-	st.Feas[o] = feas{mask: mask, n: len(o.Exits)}
+	st.Feas[o] = feas{mask: mask, n: len(o.Exits), exits: o.Exits, sum: o.Sum}
 	if len(g) == 1 {
 		// a single way out: what is known about the callee's variables there stays known (a result built from them,
 		// e.g. a struct of flags, can be read in their terms)
@@ -2383,15 +2487,12 @@ func (r *runner) fieldValue(x *ast.SelectorExpr, st *State) (e ast.Expr, zero, o
 		return nil, false, false
 	}
 	idx := st.DefIdx[o]
-	f, has := st.Feas[or]
-	if !has || f.n != len(or.Exits) {
-		f = feas{mask: ^uint64(0) >> (64 - uint(len(or.Exits))), n: len(or.Exits)}
-	}
+	f, exits := feasOf(or, st)
 	if r.fieldWritten(o) {
 		return nil, false, false
 	}
 	n := 0
-	for i, ex := range or.Exits {
+	for i, ex := range exits {
 		if f.mask&(1<<uint(i)) == 0 {
 			continue
 		}
@@ -2603,6 +2704,10 @@ func (r *runner) killVar(o types.Object, st *State, pos token.Pos) {
 		delete(st.May, t)
 		delete(st.Must, "past:"+t)
 		delete(st.May, "past:"+t)
+		delete(st.Must, "empty:"+t)
+		delete(st.May, "empty:"+t)
+		delete(st.Must, "nonempty:"+t)
+		delete(st.May, "nonempty:"+t)
 	}
 	delete(st.Lit, o)
 	delete(st.Cond, o)
@@ -3022,16 +3127,24 @@ func (r *runner) exit(ret *ast.ReturnStmt, pos token.Pos, st *State) {
 		if c, ok := ast.Unparen(ret.Results[0]).(*ast.CallExpr); ok {
 			if or := r.origins[c]; or != nil && or.Inlined && len(or.Exits) > 0 {
 				same := true
-				for _, sub := range or.Exits {
+				f, orExits := feasOf(or, st)
+				for _, sub := range orExits {
 					if len(sub.Results) != r.nres {
 						same = false
 					}
 				}
 				if same {
-					for _, sub := range or.Exits {
+					for k, sub := range orExits {
+						if f.mask&(1<<uint(k)) == 0 {
+							continue
+						}
 						ex := &Exit{Stmt: ret, Pos: sub.Pos, St: sub.St.copy(), Results: sub.Results, Class: sub.Class, BoolRes: sub.BoolRes, ErrOrigin: sub.ErrOrigin, OkImplies: sub.OkImplies, FailImpl: sub.FailImpl, Via: or}
 						if r.errIdx < 0 {
 							ex.Class = ExitNoErr
+						}
+						// deferred literals of this function run on these exits too
+						if r.sp.DeferAtExit && !r.inDefers && len(r.deferOrder) > 0 && r.runDefersAtExit(ret, sub.Results, sub.Pos, ex.St, ex) {
+							continue
 						}
 						r.res.Exits = append(r.res.Exits, ex)
 					}
@@ -3075,25 +3188,22 @@ func (r *runner) exit(ret *ast.ReturnStmt, pos token.Pos, st *State) {
 	// what that literal gave them
 	if r.record && len(results) == r.nres && r.nres > 0 {
 		if or, obj := r.structResult(results, st); or != nil {
-			f, has := st.Feas[or]
-			if !has || f.n != len(or.Exits) {
-				f = feas{mask: ^uint64(0) >> (64 - uint(len(or.Exits))), n: len(or.Exits)}
-			}
+			f, orExits := feasOf(or, st)
 			done := true
 			var exits []func()
-			for k := range or.Exits {
+			for k := range orExits {
 				if f.mask&(1<<uint(k)) == 0 {
 					continue
 				}
 				stk := st.copy()
-				stk.Feas[or] = feas{mask: 1 << uint(k), n: len(or.Exits)}
-				for t := range or.Exits[k].St.Must {
+				stk.Feas[or] = feas{mask: 1 << uint(k), n: len(orExits), exits: f.exits, sum: f.sum}
+				for t := range orExits[k].St.Must {
 					if t != deadTag {
 						stk.Must[t] = true
 						stk.May[t] = true
 					}
 				}
-				importFacts(stk, or.Exits[k].St)
+				importFacts(stk, orExits[k].St)
 				sub := make([]ast.Expr, len(results))
 				for i, e := range results {
 					sub[i] = e
@@ -3250,11 +3360,11 @@ func (r *runner) exitWith(ret *ast.ReturnStmt, results []ast.Expr, pos token.Pos
 		}
 	}
 	if or := ex.ErrOrigin; or != nil && ex.Class == ExitEither {
-		if f, ok := st.Feas[or]; ok && f.n == len(or.Exits) && f.mask != 0 && or.Inlined {
+		if f, exits := feasOf(or, st); f.mask != 0 && or.Inlined {
 			// the returned error is that of a callee analysed in context: only its exits still consistent with what
 			// was learnt about its other results count
 			anyOK, anyErr := false, false
-			for i, sub := range or.Exits {
+			for i, sub := range exits {
 				if f.mask&(1<<uint(i)) != 0 {
 					if sub.Class != ExitErr {
 						anyOK = true
@@ -3270,10 +3380,10 @@ func (r *runner) exitWith(ret *ast.ReturnStmt, results []ast.Expr, pos token.Pos
 			case anyErr && !anyOK:
 				ex.Class = ExitErr
 			}
-			for t := range r.feasMust(or, f, func(sub *Exit) bool { return sub.Class != ExitErr }) {
+			for t := range r.feasMust(exits, f, func(sub *Exit) bool { return sub.Class != ExitErr }) {
 				ex.OkImplies[t] = true
 			}
-			for t := range r.feasMust(or, f, func(sub *Exit) bool { return sub.Class != ExitOK }) {
+			for t := range r.feasMust(exits, f, func(sub *Exit) bool { return sub.Class != ExitOK }) {
 				ex.FailImpl[t] = true
 			}
 		}
@@ -3283,11 +3393,11 @@ func (r *runner) exitWith(ret *ast.ReturnStmt, results []ast.Expr, pos token.Pos
 				ex.FailImpl["fail:"+t] = true
 			}
 		}
-		if or.Sum != nil {
-			for t := range or.Sum.MustOk {
+		if sum := sumOf(or, st); sum != nil {
+			for t := range sum.MustOk {
 				ex.OkImplies[t] = true
 			}
-			for t := range or.Sum.MustFail {
+			for t := range sum.MustFail {
 				ex.FailImpl[t] = true
 			}
 		}
@@ -3350,8 +3460,30 @@ func (r *runner) runDefersAtExit(ret *ast.ReturnStmt, results []ast.Expr, pos to
 	var lits []*ast.FuncLit
 	for i := len(r.deferOrder) - 1; i >= 0; i-- {
 		t := r.deferOrder[i]
-		if st.Must[t] {
-			lits = append(lits, r.deferLits[t])
+		if !st.Must[t] {
+			continue
+		}
+		if l := r.deferLits[t]; l != nil {
+			lits = append(lits, l)
+			continue
+		}
+		// the function a call handed back: the literal the one exit of that call still possible returned
+		if or := r.deferCalls[t]; or != nil && len(or.Exits) <= 64 {
+			f, orExits := feasOf(or, st)
+			var one *ast.FuncLit
+			n := 0
+			for k, ex := range orExits {
+				if f.mask&(1<<uint(k)) == 0 {
+					continue
+				}
+				n++
+				if len(ex.Results) >= 1 {
+					one, _ = ast.Unparen(ex.Results[0]).(*ast.FuncLit)
+				}
+			}
+			if n == 1 && one != nil {
+				lits = append(lits, one)
+			}
 		}
 	}
 	if len(lits) == 0 {
